@@ -13,3 +13,36 @@ let () =
   register "ttxrow" (fun r ->
     let c = rlist rstr r in let row = rstr r in
     pres (plist ptrun) (ttx_parse_row c row))
+
+(* C06: the specification side (Model/TtxSpec.v): a generated case as schedule x multiplexing x PES grouping; inside the
+   class of the stream theorems the cues the schedule denotes, outside it "NS" *)
+let runit r = let id = rn r in let d = rstr r in (id, d)
+let rtunit r = let t = rz r in let u = runit r in (t, u)
+let rrowspec r =
+  let pre = rstr r in let boxes = nat_of_int (rint r) in
+  let segs = rlist (fun r -> let c = rstr r in let x = rstr r in { sg_codes = c; sg_cells = x }) r in
+  let e = if rbool r then Some (rstr r) else None in
+  { rw_pre = pre; rw_boxes = boxes; rw_segs = segs; rw_end = e }
+let rec take n l = if n = 0 then ([], l) else match l with [] -> ([], []) | x :: r -> let (a, b) = take (n - 1) r in (x :: a, b)
+let () =
+  register "ttxspec" (fun r ->
+    let auto = rbool r in let mag = rn r in let pn = rz r in
+    let insts = rlist (fun r -> let t = rz r in let cs = rn r in
+                        let rows = rlist (fun r -> let row = rn r in let sp = rrowspec r in (row, sp)) r in
+                        { i_t = t; i_cs = cs; i_rows = rows }) r in
+    let pre = rlist rtunit r in
+    let ims = rlist (fun r ->
+      let h = runit r in
+      let body = rlist (fun r -> let t = rz r in let f = rbool r in let u = runit r in (t, (f, u))) r in
+      let tail = if rbool r then (let tm = rtunit r in let dead = rlist rtunit r in Some (tm, dead)) else None in
+      { im_hdr = h; im_body = body; im_tail = tail }) r in
+    let s = { s_mag = mag; s_pn = pn; s_insts = insts } in
+    let m = { mx_pre = pre; mx_insts = ims } in
+    let evs = events s m in
+    let groups = rlist (fun r -> let t = rz r in let id = rn r in let n = rint r in (t, id, n)) r in
+    let rest = ref evs in
+    let peses = List.map (fun (t, id, n) -> let (a, b) = take n !rest in rest := b; ((t, id), List.map snd a)) groups in
+    let flat = List.concat (List.map pes_units peses) in
+    let inclass = (if auto then mux_ok_auto s m else mux_ok s m) && List.for_all pes_ok peses && flat = evs in
+    if not inclass then Buffer.add_string b "NS 0 "
+    else (pint 0; plist ptcue (cues_of s (zero_or (tmin peses None)) (zero_or (tmax peses None)))))
